@@ -1310,7 +1310,7 @@ def __is_private(method_name: str) -> bool:
     return method_name.startswith("__") and not method_name.endswith("__")
 
 
-__NAME_MANGLED_PATTERN = re.compile(r"^_[A-Za-z][A-Za-z0-9]*__\w+$")
+__NAME_MANGLED_PATTERN = re.compile(r"^_[A-Za-z]\w*__\w+$")
 
 
 def __is_name_mangled(name: str) -> bool:
